@@ -21,6 +21,7 @@ def gen_case(rnd, tier: str, i: Any, **over: Any) -> Dict[str, Any]:
     # launch APIs outside the short list the queue-length counters know by name (blocking cudaMemcpy, cudaGraphLaunch ...)
     exotic = rnd.random() < 0.25
     zero_tie = rnd.random() < 0.3
+    sync_tie = rnd.random() < 0.4
     for r in range(n_ranks):
         p = gen_sim.random_params(rnd, tier, rank=r, first_step=first_step, avoid_k1=True, n_steps=n_steps, p_zero_launch=rnd.choice([0.0, 0.0, 0.2]),
                                   nested_driver=rnd.random() < 0.35, exotic_launch=exotic,
@@ -28,7 +29,9 @@ def gen_case(rnd, tier: str, i: Any, **over: Any) -> Dict[str, Any]:
                                   # thread that shares its (pid, tid) pair with a device stream; its graphs would only re-report that
                                   pid_tid_clash=False,
                                   # a zero-duration kernel and the next kernel of its stream starting in the same instant
-                                  zero_tie=zero_tie)
+                                  zero_tie=zero_tie,
+                                  # a kernel of another thread starting in the instant a sync record completes
+                                  sync_tie=sync_tie)
         p.update(over)
         tr, truth = gen_sim.gen_trace_with_truth(rnd, **p)
         files[f"rank{r}.json"] = tr
